@@ -27,6 +27,7 @@ import (
 type refField struct {
 	dc  string // non-empty: don't-care, with the reason
 	src string // block that stated the value in force: default | cluster | extra | env | none
+	tv  string // class of a hostile template variable value/name substituted into this field ("" = none)
 }
 
 type refList struct {
@@ -74,6 +75,8 @@ type refUp struct {
 	extraRaw interface{} // the extra_routes value in force
 	extraSrc string
 
+	RouteTV    string // like refField.tv, for service / from / to / type
+	RouteDC    bool   // service/from/to/type received a template value that looks like a reference: not compared
 	MustErr    string // the loader has to refuse the document because of this upstream
 	Unknown    string // validity not settled by the docs (loader may refuse or accept)
 	Unresolved bool   // from / service still contain an unprovided {{variable}}
@@ -452,6 +455,48 @@ func subst(s string, vars map[string]string) string {
 	return s
 }
 
+// substT is the reference substitution: every `{{name}}` whose name is one of the provided variables
+// (exact, case-sensitive, no inner blanks) is replaced by the variable's value VERBATIM, in one pass.
+// It also reports the class of hostile value / name that went in, and whether a value looked like a
+// reference itself (nesting is not settled by the docs: the pinned loader's result depends on map order).
+func substT(s string, vars map[string]string) (out, tv string, nested bool) {
+	var b strings.Builder
+	for {
+		i := strings.Index(s, "{{")
+		if i < 0 {
+			break
+		}
+		j := strings.Index(s[i+2:], "}}")
+		if j < 0 {
+			break
+		}
+		name := s[i+2 : i+2+j]
+		v, ok := vars[name]
+		if !ok {
+			b.WriteString(s[:i+2])
+			s = s[i+2:]
+			continue
+		}
+		b.WriteString(s[:i])
+		b.WriteString(v)
+		s = s[i+2+j+2:]
+		cl := classifyValue(v)
+		if cl == "nested-reference" {
+			nested = true
+		}
+		if cl == "" {
+			cl = classifyName(name)
+		}
+		if tv == "" || (cl != "" && classifyName(name) == "") {
+			if cl != "" {
+				tv = cl
+			}
+		}
+	}
+	b.WriteString(s)
+	return b.String(), tv, nested
+}
+
 var hostLike = regexp.MustCompile(`^([a-z][a-z0-9+.-]*://)?[A-Za-z0-9._-]+(:[0-9]+)?(/[A-Za-z0-9._/-]*)?$`)
 
 func hasSpaceOrControl(s string) bool {
@@ -491,11 +536,27 @@ func routeHost(s string) (authority, host string) {
 
 // finish substitutes template variables, applies the deployment defaults and decides validity.
 func finish(u *refUp, vars map[string]string, env envSpec) {
-	u.Service = subst(u.Service, vars)
-	u.From, u.To, u.Type = subst(u.From, vars), subst(u.To, vars), subst(u.Type, vars)
+	routeNested := false
+	for _, f := range []*string{&u.Service, &u.From, &u.To, &u.Type} {
+		v, tv, nested := substT(*f, vars)
+		*f = v
+		if tv != "" && u.RouteTV == "" {
+			u.RouteTV = tv
+		}
+		if nested {
+			routeNested = true
+		}
+	}
 	for _, l := range u.Lists {
 		for i := range l.v {
-			l.v[i] = subst(l.v[i], vars)
+			v, tv, nested := substT(l.v[i], vars)
+			l.v[i] = v
+			if tv != "" && l.tv == "" {
+				l.tv = tv
+			}
+			if nested && l.dc == "" {
+				l.dc = "template-value-looks-like-a-reference"
+			}
 			if leftoverRe.MatchString(l.v[i]) && l.dc == "" {
 				l.dc = "unprovided-template-variable"
 			}
@@ -505,8 +566,9 @@ func finish(u *refUp, vars map[string]string, env envSpec) {
 		if s.v == "" {
 			continue
 		}
-		s.v = subst(s.v, vars)
-		if leftoverRe.MatchString(s.v) {
+		var nested bool
+		s.v, s.tv, nested = substT(s.v, vars)
+		if nested || leftoverRe.MatchString(s.v) {
 			if k != "provider_slug" {
 				u.Unknown = "unprovided template variable in a duration"
 			}
@@ -524,7 +586,14 @@ func finish(u *refUp, vars map[string]string, env envSpec) {
 	for _, m := range u.Maps {
 		for _, mm := range []map[string]string{m.must, m.may} {
 			for k, v := range mm {
-				mm[k] = subst(v, vars)
+				nv, tv, nested := substT(v, vars)
+				mm[k] = nv
+				if tv != "" && m.tv == "" {
+					m.tv = tv
+				}
+				if nested && m.dc == "" {
+					m.dc = "template-value-looks-like-a-reference"
+				}
 				if leftoverRe.MatchString(mm[k]) && m.dc == "" {
 					m.dc = "unprovided-template-variable"
 				}
@@ -561,6 +630,13 @@ func finish(u *refUp, vars map[string]string, env envSpec) {
 	// validity
 	if leftoverRe.MatchString(u.From) || leftoverRe.MatchString(u.Service) {
 		u.Unresolved = true
+	}
+	if routeNested {
+		u.RouteDC = true
+		u.Unresolved = true
+		if u.Unknown == "" {
+			u.Unknown = "a template value that looks like a reference went into service/from/to/type"
+		}
 	}
 	if u.MustErr != "" {
 		return
